@@ -1520,12 +1520,17 @@ namespace bloch::compiler {
                 if (*right == 0)
                     throw BlochError(ErrorCategory::Semantic, bin->line, bin->column,
                                      "division by zero in constant integer expression");
+                if (*left == std::numeric_limits<int>::min() && *right == -1)
+                    throw BlochError(ErrorCategory::Semantic, bin->line, bin->column,
+                                     "integer overflow in constant integer expression");
                 return *left / *right;
             }
             if (bin->op == "%") {
                 if (*right == 0)
                     throw BlochError(ErrorCategory::Semantic, bin->line, bin->column,
                                      "modulo by zero in constant integer expression");
+                if (*right == -1)
+                    return 0;  // x % -1 is 0 for every x; INT_MIN % -1 would trap
                 return *left % *right;
             }
             return std::nullopt;
